@@ -528,6 +528,19 @@ func (env *Env) evalUnary(x *ast.UnaryExpr, st *State) Val {
 		if cl, ok := x.X.(*ast.CompositeLit); ok {
 			return env.newObject(cl, st)
 		}
+		if id, ok := unparen(x.X).(*ast.Ident); ok && !env.contract {
+			// &local: a fresh cell holding the variable's current value. Sound only if the
+			// variable is not written afterwards (checked syntactically: single definition).
+			if o, ok := env.resolveIdent(id).(*types.Var); ok && !o.IsField() && o.Parent() != o.Pkg().Scope() {
+				v := env.eval(id, st)
+				ref := env.allocRef(st, v.Ty)
+				key := "ptr." + env.sortOf(v.Ty)
+				h := env.heapTerm(st, key, env.sortOf(v.Ty))
+				st.heap[key] = app("store", h, ref, v.T)
+				c.trust("&local creates a cell with the variable's value at that point (variable assumed not written afterwards)")
+				return Val{T: ref, Ty: types.NewPointer(v.Ty)}
+			}
+		}
 		c.unsupported("%s: address-of non-literal", c.e.pos(x.Pos()))
 		return Val{T: c.fresh("addr", "Int"), Ty: types.NewPointer(tInt)}
 	case token.ARROW:
@@ -541,6 +554,10 @@ func (env *Env) evalUnary(x *ast.UnaryExpr, st *State) Val {
 // wrap applies modular wrap-around for unsigned integer results.
 func (env *Env) wrap(v Val) Val {
 	if env.c.bv || env.contract {
+		return v
+	}
+	if env.c.fi != nil && env.c.fi.Contract != nil && env.c.fi.Contract.NoWrap && isUnsigned(v.Ty) {
+		env.c.trust("nowrap: unsigned counters in " + env.c.fi.Key + " are assumed not to overflow")
 		return v
 	}
 	if isUnsigned(v.Ty) {
@@ -1046,11 +1063,15 @@ func (env *Env) evalComposite(x *ast.CompositeLit, st *State, hint types.Type) V
 	var t types.Type
 	if x.Type != nil {
 		t = env.typeOfExpr(x.Type)
+	} else if hint != nil {
+		t = hint
 	} else if !env.contract {
 		t = env.pkg.info.TypeOf(x)
 	}
-	if t == nil {
-		t = hint
+	if t != nil {
+		if p, ok := types.Unalias(t).Underlying().(*types.Pointer); ok && x.Type == nil {
+			t = p.Elem()
+		}
 	}
 	if t == nil {
 		c.unsupported("%s: composite literal of unknown type", c.e.pos(x.Pos()))
